@@ -89,4 +89,8 @@ the status after choosing. -/
 theorem C20_skeleton_ErrorResponse : Sso.Generated.skel_auth_ErrorResponse =
     ["call:NewLogEntry", "call:Get", "if{", "store:response.Error", "call:writeJSONResponse", "}", "else{", "call:StatusText", "call:WithHTTPStatus", "call:WithPageTitle", "call:WithPageMessage", "call:Info", "call:WriteHeader", "call:ExecuteTemplate", "}"] := by decide
 
+/-- Tie (T1): JSON bodies are what `encoding/json` produced, written as is. -/
+theorem C20_skeleton_writeJSONResponse : Sso.Generated.skel_auth_writeJSONResponse =
+    ["call:Header", "call:Set", "call:WriteHeader", "call:NewEncoder", "call:Encode", "if{", "call:Error", "call:WriteString", "}"] := by decide
+
 end Sso.Html
